@@ -86,6 +86,7 @@ struct Node
    unsigned char c;
    bool neg;
    std::vector<std::pair<int,int> > items;
+   std::vector<std::pair<int,int> > items24;   // the members as SetPattern's character translation leaves them (finding F24)
    Alt alt;
    Node() : kind(LIT), c(0), neg(false) {}
 };
@@ -98,8 +99,9 @@ struct DocPattern
    std::vector<std::pair<unsigned long long, unsigned long long> > ranges;
    Alt alt;
    bool classMeta;     // a bracket expression holds one of , . + * ? backslash
+   bool classMetaComplex; // ... in a way whose effect this oracle does not reproduce (backslash, range end point)
    bool gnuEscape;     // backslash followed by a character the regex engine gives a meaning
-   DocPattern() : documented(false), negate(false), isRange(false), classMeta(false), gnuEscape(false) {}
+   DocPattern() : documented(false), negate(false), isRange(false), classMeta(false), classMetaComplex(false), gnuEscape(false) {}
 };
 
 static bool parseAlt(const S & p, size_t & i, Alt & out, bool inGroup, DocPattern & dp);
@@ -116,13 +118,16 @@ static bool parseClass(const S & p, size_t & i, Node & n, DocPattern & dp)   // 
       if ((c == ']')&&(!first)) {i++; break;}
       if ((c == '[')&&(i+1 < p.size())&&((p[i+1]=='.')||(p[i+1]==':')||(p[i+1]=='='))) return false;
       if (strchr(",.+*?\\", c)) dp.classMeta = true;
+      if (c == '\\') dp.classMetaComplex = true;
       if ((i+2 < p.size())&&(p[i+1] == '-')&&(p[i+2] != ']'))
       {
          unsigned char d = (unsigned char) p[i+2];
          if ((d == '[')&&(i+3 < p.size())&&((p[i+3]=='.')||(p[i+3]==':')||(p[i+3]=='='))) return false;
          if (strchr(",.+*?\\", d)) dp.classMeta = true;
+         if ((strchr(",.+*?\\", c))||(strchr(",.+*?\\", d))) dp.classMetaComplex = true;
          if (d < c) return false;
          n.items.push_back(std::make_pair((int)c, (int)d));
+         n.items24.push_back(std::make_pair((int)c, (int)d));
          i += 3;
          // what follows a range must be ']' or an ordinary new item; a '-' here is not documented
          if ((i < p.size())&&(p[i] == '-')&&((i+1 >= p.size())||(p[i+1] != ']'))) return false;
@@ -131,6 +136,15 @@ static bool parseClass(const S & p, size_t & i, Node & n, DocPattern & dp)   // 
       {
          if ((c == '-')&&(!first)&&((i+1 >= p.size())||(p[i+1] != ']'))) return false;
          n.items.push_back(std::make_pair((int)c, (int)c));
+         // what the translation loop makes of this member:  , -> |   ? -> .   . -> \.   + -> \+   * -> .*
+         if (c == ',') n.items24.push_back(std::make_pair((int)'|', (int)'|'));
+         else if (c == '?') n.items24.push_back(std::make_pair((int)'.', (int)'.'));
+         else
+         {
+            if ((c == '.')||(c == '+')) n.items24.push_back(std::make_pair((int)'\\', (int)'\\'));
+            if (c == '*') n.items24.push_back(std::make_pair((int)'.', (int)'.'));
+            n.items24.push_back(std::make_pair((int)c, (int)c));
+         }
          i++;
       }
       first = false;
@@ -224,6 +238,7 @@ static void parseDoc(const S & pat, DocPattern & dp)
 }
 
 static void endsAlt(const Alt & a, const S & s, const std::set<size_t> & from, std::set<size_t> & to);
+static bool g_useItems24 = false;   // evaluate classes as finding F24 leaves them (only to CLASSIFY a mismatch)
 
 static void endsAtom(const Node & n, const S & s, const std::set<size_t> & from, std::set<size_t> & to)
 {
@@ -238,7 +253,8 @@ static void endsAtom(const Node & n, const S & s, const std::set<size_t> & from,
          {
             const int ch = (unsigned char) s[*it];
             bool in = false;
-            for (size_t k=0; k<n.items.size(); k++) if ((n.items[k].first <= ch)&&(ch <= n.items[k].second)) in = true;
+            const std::vector<std::pair<int,int> > & its = g_useItems24 ? n.items24 : n.items;
+            for (size_t k=0; k<its.size(); k++) if ((its[k].first <= ch)&&(ch <= its[k].second)) in = true;
             if (in != n.neg) to.insert(*it+1);
          }
       break;
@@ -357,10 +373,37 @@ static void oracle(CaseState & cs, const S & subj, bool got)
       const bool want = docMatch(dp, subj, &why);
       if (want != got)
       {
+         // which finding, if any, explains the difference?
          S cls = "doc-mismatch";
-         if (dp.isRange) {if (why) cls = why;}
-         else if (dp.gnuEscape) cls = "F8-gnu-escape";
-         else if (dp.classMeta) cls = "class-meta";
+         if (dp.isRange)
+         {
+            if (why)
+            {
+               // findings F25/F26: only the leading digits are read, into a uint32 with wrap-around.  Does that explain it?
+               unsigned long long v = 0; size_t i = 0;
+               while((i < subj.size())&&(subj[i] >= '0')&&(subj[i] <= '9')) {v = v*10ULL + (unsigned long long)(subj[i]-'0'); i++;}   // wraps mod 2^64 like Atoull
+               v &= 0xFFFFFFFFULL;
+               bool r = false;
+               for (size_t k=0; k<dp.ranges.size(); k++) if ((dp.ranges[k].first <= v)&&(v <= dp.ranges[k].second)) r = true;
+               if ((dp.negate ? !r : r) == got) cls = why;
+            }
+         }
+         else
+         {
+            bool explainedByF24 = false;
+            if (dp.classMeta)
+            {
+               if (dp.classMetaComplex) explainedByF24 = true;   // not reproduced here
+               else
+               {
+                  const char * w2 = NULL;
+                  g_useItems24 = true;  const bool want24 = docMatch(dp, subj, &w2);  g_useItems24 = false;
+                  explainedByF24 = (want24 == got);
+               }
+            }
+            if (explainedByF24) cls = "class-meta";
+            else if (dp.gnuEscape) cls = "F8-gnu-escape";
+         }
          cs.fails.insert(cls + " (Match differs from the documented meaning of the pattern)");
       }
    }
